@@ -94,6 +94,7 @@ class PSocket(vnet.VSocket):
     def sendall(self, data, *flags):
         net = self._net
         p = net.cur
+        self._peer.silent = False      # a reply withheld for the previous request does not mute the server
         if p is not None and not p.used_send:
             p.used_send = True
             if p.sym in SEND_FAULTS:
@@ -387,7 +388,7 @@ def run_scenario(sc):
         obs["undisposed"] = undisposed
         obs["open_before_drop"] = before
         obs["fin"] = {"qlen": len(qi), "pooled": sum(1 for x in qi if x), "pooled_open": sum(1 for x in qs if x),
-                      "dials": len(pnet.dials)}
+                      "dials": len(pnet.peers)}
         obs["extra_attempts"] = rec.extra_attempts
         # ---- probe: the public behaviour named in the property's anchor
         from urllib3.exceptions import EmptyPoolError
@@ -420,7 +421,6 @@ def run_scenario(sc):
         obs["probe"] = [nle, extra]
         pool.close()
         pool = pm = None
-        gc.collect()
     return {"events": encode(log), "obs": obs}
 
 
@@ -463,3 +463,22 @@ def encode(log):
         elif k == "PROBE":
             out.append(EV("Probe", n=e[1], res=e[2]))
     return out
+
+
+def compare(sc, obs):
+    """Model's expected observations (emitted by TLC with the scenario) against the real run."""
+    diffs = []
+    ereq = [st for st in sc["steps"] if st["op"] == "req"]
+    edis = [st for st in sc["steps"] if st["op"] == "disp"]
+    for e, o in zip(ereq, obs["reqs"]):
+        if (e["out"], len(e["atts"]), e["dials"]) != (o["out"], o["atts"], o["dials"]):
+            diffs.append(f"req {e['id']}: model out={e['out']} attempts={len(e['atts'])} dials={e['dials']}; "
+                         f"code out={o['out']} attempts={o['atts']} dials={o['dials']}")
+    for e, o in zip(edis, obs["disps"]):
+        if e["out"] != o["out"]:
+            diffs.append(f"disposal {e['how']} of {e['id']}: model {e['out']}; code {o['out']}")
+    if "fin" in sc and sc["fin"] != obs["fin"]:
+        diffs.append(f"final state: model {sc['fin']}; code {obs['fin']}")
+    if obs.get("extra_attempts"):
+        diffs.append(f"{obs['extra_attempts']} attempts beyond the model's")
+    return diffs
